@@ -3,6 +3,7 @@
 from __future__ import annotations
 
 import ast
+import re
 
 from ..astutil import attr_chain, call_attr, calls_in, guard_facts, unparse, walk_local
 from ..cfg import CFG
@@ -164,6 +165,9 @@ def check(idx: Index, rep: Report, tier: str) -> str:
                 for s in walk_local(f.node):
                     if isinstance(s, ast.Assign) and unparse(s.targets[0]) == FLAG:
                         for t, pol in guard_facts(f.node, s):
+                            # truthiness of a collection: `L`, `len(L) > 0`, `len(L) != 0`, `len(L) >= 1`
+                            if pol and isinstance(t, ast.Compare) and len(t.ops) == 1 and isinstance(t.left, ast.Call) and unparse(t.left.func) == "len" and len(t.left.args) == 1 and (unparse(t.ops[0].__class__.__name__ and t.comparators[0]), type(t.ops[0]).__name__) in (("0", "Gt"), ("0", "NotEq"), ("1", "GtE")):
+                                t = t.left.args[0]
                             if pol and isinstance(t, (ast.Name, ast.Attribute)):
                                 cond_sets.append((s, t))
                 ok = False
@@ -171,7 +175,14 @@ def check(idx: Index, rep: Report, tier: str) -> str:
                     tt = unparse(t)
                     if isinstance(t, ast.Name):
                         defs = [v for _, v in reaching_defs(cfg, t.id, cfg.node_of(s)) if v is not None]
-                        if len(defs) == 1 and unparse(defs[0]) == f"[use.operation for use in {recv}.uses]":
+                        collects = len(defs) == 1 and re.fullmatch(rf"\[(\w+)\.operation for \1 in {re.escape(recv)}\.uses\]", unparse(defs[0])) is not None
+                        if not collects and defs and all(unparse(d) in ("[]", "list()") for d in defs):
+                            # explicit loop: L = []; for use in recv.uses: L.append(use.operation)
+                            for w_ in walk_local(f.node):
+                                if isinstance(w_, ast.For) and unparse(w_.iter) == f"{recv}.uses" and isinstance(w_.target, ast.Name):
+                                    if any(isinstance(c_, ast.Call) and unparse(c_.func) == f"{t.id}.append" and len(c_.args) == 1 and unparse(c_.args[0]) == f"{w_.target.id}.operation" for c_ in calls_in(w_)) and nc in cfg.reachable(cfg.node_of(w_)):
+                                        collects = True
+                        if collects:
                             # the list must be computed before the re-routing and the flag set after it on all paths
                             dn = [nid for nid, v in reaching_defs(cfg, t.id, cfg.node_of(s))][0]
                             if nc in cfg.reachable(dn) and cfg.node_of(s) in cfg.reachable(nc):
@@ -389,6 +400,25 @@ def check(idx: Index, rep: Report, tier: str) -> str:
     v = sorted(ctrl)[0]
     # every process_worklist / post_walk result inside or before the loop must flow into v at the test:
     srcs = [c for c in calls_in(f.node) if unparse(c.func) in ("self._process_worklist", "self.post_walk_func")]
+    # copy graph between locals: a = b, a |= b, a = a or b  (b flows to a), closed transitively
+    flows: dict[str, set[str]] = {}
+    for s_ in walk_local(f.node):
+        if isinstance(s_, ast.Assign) and len(s_.targets) == 1 and isinstance(s_.targets[0], ast.Name):
+            for x_ in ast.walk(s_.value):
+                if isinstance(x_, ast.Name) and not any(isinstance(y_, ast.Call) for y_ in ast.walk(s_.value)):
+                    flows.setdefault(x_.id, set()).add(s_.targets[0].id)
+        elif isinstance(s_, ast.AugAssign) and isinstance(s_.target, ast.Name) and isinstance(s_.value, ast.Name):
+            flows.setdefault(s_.value.id, set()).add(s_.target.id)
+    changed_ = True
+    while changed_:
+        changed_ = False
+        for a_, bs_ in list(flows.items()):
+            for b_ in list(bs_):
+                extra = flows.get(b_, set()) - bs_
+                if extra:
+                    bs_ |= extra
+                    changed_ = True
+    sources: set[str] = set()
     for c in srcs:
         st = None
         for s in walk_local(f.node):
@@ -399,6 +429,10 @@ def check(idx: Index, rep: Report, tier: str) -> str:
             bad.append((f"result-dropped:{nm_}", f"the result of `{unparse(c.func)}(...)` is discarded"))
             continue
         tgt = unparse(st.targets[0] if isinstance(st, ast.Assign) else st.target)
+        sources.add(tgt)
+        if tgt not in ctrl and flows.get(tgt, set()) & ctrl:
+            # the result reaches the loop condition through plain copies (`sweep_changed = changed`)
+            continue
         if tgt not in ctrl:
             bad.append((f"result-not-in-loop-condition:{nm_}", f"the result of `{unparse(c.func)}(...)` is stored in `{tgt}`, which does not control the re-walk loop ({sorted(ctrl)}): a change made by this step does not trigger another walk"))
             continue
@@ -423,6 +457,8 @@ def check(idx: Index, rep: Report, tier: str) -> str:
     rets = [n for n in walk_local(f.node) if isinstance(n, ast.Return) and n.value is not None]
     for rt in rets:
         if isinstance(rt.value, ast.Name) and rt.value.id not in ctrl:
+            if rt.value.id in sources or any(rt.value.id in flows.get(sv, set()) for sv in sources):
+                continue  # a copy of a walk result
             defs = [unparse(x) for _, x in reaching_defs(cfg, rt.value.id, cfg.node_of(rt)) if x is not None]
             if not all(any(cv in d for cv in ctrl) or d == "False" for d in defs) and not any(isinstance(s_, ast.AugAssign) and unparse(s_.target) == rt.value.id and any(cv in unparse(s_.value) for cv in ctrl) for s_ in walk_local(f.node)):
                 bad.append(("result", f"returned `{rt.value.id}` is not derived from the walk results {sorted(ctrl)}"))
